@@ -10,7 +10,7 @@ import json
 import os
 
 from . import common, c07_total
-from .common import AnalysisBroken, strip, walk, calls, render
+from .common import AnalysisBroken, strip, walk, calls, render, const_value
 
 EXPLANATION = (
     "R1: every call of fread/fscanf/fgets in lib.c and archive.c (after expansion of FILE_GET_CHARS/BYTE/HINT/SINT) and in "
@@ -325,6 +325,51 @@ def check_archive_end(rep):
                       % common.render(c))
 
 
+def check_refusal_final(rep):
+    """R7: a failed check of a library file ends the use of that library.  In lib.c every `if` whose condition compares the
+    result of a read with the requested count (`fread(...) != n`) or negates the header validator (`!libChkHeader(lib)`) must
+    not fall out of its branch: the branch ends in a call that does not return (comsgFatal, ...) or in a `return`.  A report
+    that returns (comsgError, or a callee chosen at run time) lets the function go on to capture the short buffer or hand the
+    damaged library to its caller, in whatever mode the branch then continues."""
+    f = common.extract("lib.c", all_trees=True)
+    n = 0
+    for name, fn in sorted(f.funcs.items()):
+        if "body" not in fn or not fn.get("file", "").endswith("lib.c"):
+            continue
+        for i in walk(fn["body"]):
+            if i["k"] != "IfStmt":
+                continue
+            cond = i["c"][0]
+            kind = None
+            for y in walk(cond):
+                if y["k"] == "BinaryOperator" and y["op"] in ("!=", "<") and any(z["k"] == "CallExpr" and z.get("callee") == "fread" for z in walk(y)):
+                    kind = "short read"
+                if y["k"] == "UnaryOperator" and y["op"] == "!" and (strip(y["c"][0]) or {}).get("callee") == "libChkHeader":
+                    kind = "header rejected by libChkHeader"
+                if y["k"] == "BinaryOperator" and y["op"] == "==" and const_value(y["c"][1]) == 0 and \
+                        (strip(y["c"][0]) or {}).get("callee") == "libChkHeader":
+                    kind = "header rejected by libChkHeader"
+            if kind is None:
+                continue
+            n += 1
+            then = i["c"][1]
+            last = then
+            while last is not None and last["k"] == "CompoundStmt" and last["c"]:
+                last = last["c"][-1]
+            while last is not None and last["k"] in ("ParenExpr", "CStyleCastExpr", "ImplicitCastExpr"):
+                last = last["c"][0]
+            key = "refusal-final:%s@%d" % (name, sum(1 for j in walk(fn["body"]) if j["k"] == "IfStmt" and j["l"] <= i["l"]))
+            where = "lib.c:%d (%s)" % (i["l"], name)
+            if last is not None and common.ends_flow(last):
+                rep.ok("R7", key, sample={"check": kind})
+            else:
+                rep.violation("R7", key, where,
+                              "after a %s the branch can complete normally (it does not end in a non-returning call or a return): "
+                              "the function carries on with the damaged library -- the short buffer is captured, or the library "
+                              "whose header was rejected is returned to the caller and used" % kind)
+    rep.floor("failed-check branches in lib.c", n, 3)
+
+
 def digest(f):
     out = {"reads": [], "chk": [], "referenced": set(), "refs_by_fn": {}}
     for name, fn in f.funcs.items():
@@ -462,6 +507,7 @@ def run(tier, only=None):
                 rep.violation("R2", key, "%s:%d (%s)" % (unit, line, func),
                               "libChkHeader's verdict is %s: a library with a bad header is reported and then used anyway" % role)
     rep.floor("calls of libChkHeader", m, 2)
+    check_refusal_final(rep)
     # R3
     f = common.extract("lib.c", trees=["libGetSection"])
     fn = f.func("libGetSection")
